@@ -102,7 +102,8 @@ class Ledger:
         self.vdoms = parse_vdoms(sc["controls"].get("virtualdomains", ""))
         self.life = int(sc["controls"].get("queuelifetime", "604800").strip() or 604800)
         self.passes = {}         # (n, chan) -> list of pass dicts
-        self.fault_or_crash = sc["mode"]["kind"] != "none"
+        # "eintr": a blocking call is interrupted by a signal once (-1/EINTR) - no failure at all, every clause stays in force
+        self.fault_or_crash = sc["mode"]["kind"] not in ("none", "eintr")
         self.disorder = False    # set when spawner died / garbage reports make exact counting unsound
         self.configured = [self._conc("concurrencylocal", 10), self._conc("concurrencyremote", 20)]
         self.first_seen_q = {}
@@ -591,7 +592,7 @@ def run_scenario(tree, wpath, sc, maxq=None, world=None):
     crash = fault = None
     if mode["kind"] == "crash":
         crash = "%s:%d" % (mode["key"], mode["k"])
-    elif mode["kind"] == "fault":
+    elif mode["kind"] in ("fault", "eintr"):
         fault = "%s:%s:%d:%s" % (mode["key"], mode["cls"], mode["k"], mode["err"])
     tape = list(sc.get("tape", []))
     plan = list(sc.get("plan", []))
